@@ -244,3 +244,597 @@ Proof.
   destruct (sender_cut_l M W0 sid ops) as ((rest & E & R) & _). fold rr in E, R.
   rewrite (R O), P, app_nil_r in E. exact E.
 Qed.
+
+(* ======================= receiver side ========================================== *)
+Lemma lookup_update_same : forall sid r l, lookup sid (update sid r l) = Some r.
+Proof.
+  induction l as [|[k x] l IH]; cbn [update lookup].
+  - rewrite Nat.eqb_refl. reflexivity.
+  - destruct (k =? sid) eqn:E; cbn [lookup]; rewrite E; [reflexivity|exact IH].
+Qed.
+
+Lemma lookup_update_other : forall sid k r l, k <> sid -> lookup sid (update k r l) = lookup sid l.
+Proof.
+  intros sid k r l H. induction l as [|[j x] l IH]; cbn [update lookup].
+  - apply Nat.eqb_neq in H. rewrite H. reflexivity.
+  - destruct (j =? k) eqn:E; cbn [lookup].
+    + apply Nat.eqb_eq in E. subst j. apply Nat.eqb_neq in H. rewrite H. reflexivity.
+    + destruct (j =? sid); [reflexivity|exact IH].
+Qed.
+
+(* ghost projections of one step *)
+Definition ffor (sid : nat) (op : rop) : list frame :=
+  match op with RDeliver f => if f_sid f =? sid then [f] else [] | _ => [] end.
+Definition dof (sid : nat) (o : rout) : list byte :=
+  match o with ORead k (RData bs) _ => if k =? sid then bs else [] | _ => [] end.
+Definition gof (sid : nat) (o : rout) : nat :=
+  match o with ORead k _ (Some d) => if k =? sid then d else 0 | _ => 0 end.
+
+Lemma delivered_snoc : forall sid outs o, delivered sid (outs ++ [o]) = delivered sid outs ++ dof sid o.
+Proof.
+  intros sid. induction outs as [|x outs IH]; intros o; cbn [app delivered].
+  - destruct o as [|k [bs| | |] wu]; cbn [delivered dof]; rewrite ?app_nil_r; reflexivity.
+  - destruct x as [|k [bs| | |] wu]; rewrite IH; try reflexivity. rewrite app_assoc. reflexivity.
+Qed.
+
+Lemma granted_snoc : forall sid outs o, granted sid (outs ++ [o]) = granted sid outs + gof sid o.
+Proof.
+  intros sid. induction outs as [|x outs IH]; intros o; cbn [app granted].
+  - destruct o as [|k x [d|]]; cbn [granted gof]; lia.
+  - destruct x as [|k x [d|]]; rewrite IH; lia.
+Qed.
+
+Lemma frames_for_in_snoc : forall sid done op,
+  frames_for sid (frames_in (done ++ [op])) = frames_for sid (frames_in done) ++ ffor sid op.
+Proof.
+  intros sid. induction done as [|x done IH]; intros op; cbn [app frames_in].
+  - destruct op; cbn [frames_in ffor frames_for filter]; reflexivity.
+  - destruct x; rewrite ?IH; try reflexivity.
+    unfold frames_for in *. cbn [frames_in filter]. rewrite IH. destruct (f_sid f =? sid); reflexivity.
+Qed.
+
+(* ghost predicates over the frames a stream received so far *)
+Definition finrst (f : frame) : bool := f_fin f || f_rst f.
+Definition seen (F : list frame) : bool := existsb finrst F.
+Definition nonempty_data (f : frame) : bool := is_data f && negb (length (f_pay f) =? 0).
+Definition head_syn (F : list frame) : bool := match F with [] => true | f :: _ => f_syn f end.
+
+(* a payload-carrying Data frame after a FIN or RST of the same stream *)
+Fixpoint late (sn : bool) (F : list frame) : bool :=
+  match F with
+  | [] => false
+  | f :: r => (sn && nonempty_data f) || late (sn || finrst f) r
+  end.
+
+Lemma seen_snoc : forall F f, seen (F ++ [f]) = seen F || finrst f.
+Proof. intros. unfold seen. rewrite existsb_app. cbn. rewrite orb_false_r. reflexivity. Qed.
+
+Lemma late_snoc : forall F b f, late b (F ++ [f]) = late b F || ((b || seen F) && nonempty_data f).
+Proof.
+  induction F as [|x F IH]; intros b f; cbn [app late seen existsb].
+  - rewrite !orb_false_r. reflexivity.
+  - rewrite IH. fold (seen F).
+    destruct b, (nonempty_data x), (finrst x), (late true F), (late false F), (seen F), (nonempty_data f); reflexivity.
+Qed.
+
+Lemma head_syn_snoc : forall F f, head_syn (F ++ [f]) = true -> head_syn F = true /\ (F = [] -> f_syn f = true).
+Proof. intros [|x F] f H; cbn in *; auto. split; [exact H|discriminate]. Qed.
+
+Lemma payload_empty : forall f, nonempty_data f = false -> payload [f] = [].
+Proof.
+  intros f H. unfold nonempty_data in H. cbn [payload]. rewrite app_nil_r.
+  destruct (is_data f); [|reflexivity]. cbn in H. apply negb_false_iff, Nat.eqb_eq in H.
+  destruct (f_pay f); [reflexivity|discriminate].
+Qed.
+
+Lemma payload_one : forall f, payload [f] = if is_data f then f_pay f else [].
+Proof. intros. cbn [payload]. apply app_nil_r. Qed.
+
+Lemma existsb_snoc : forall (p : frame -> bool) F f, existsb p (F ++ [f]) = existsb p F || p f.
+Proof. intros. rewrite existsb_app. cbn. rewrite orb_false_r. reflexivity. Qed.
+
+(* ---- a step that does not concern [sid] ----------------------------------------- *)
+Lemma ses_step_other : forall W0 MAXW sid s op s' o,
+  op_sid op <> sid -> ses_step W0 MAXW s op = (s', o) ->
+  lookup sid (streams s') = lookup sid (streams s) /\ dof sid o = [] /\ gof sid o = 0 /\
+  ffor sid op = [] /\ (broken s = true -> broken s' = true).
+Proof.
+  intros W0 MAXW sid s op s' o H E. unfold ses_step in E.
+  destruct (ors_step W0 MAXW (lookup (op_sid op) (streams s)) op (broken s)) as [[x out] e] eqn:O.
+  inversion E; subst; clear E. cbn [streams broken].
+  assert (Hn : (op_sid op =? sid) = false) by (apply Nat.eqb_neq; exact H).
+  split; [destruct x; [apply lookup_update_other; exact H|reflexivity]|].
+  split; [|split; [|split]].
+  - unfold ors_step in O. destruct op as [f|k n t|k]; cbn [op_sid] in *.
+    + destruct (broken s); [inversion O; reflexivity|].
+      destruct (lookup (f_sid f) (streams s)); destruct (f_syn f); try (inversion O; reflexivity).
+      * destruct (rs_frame r f); inversion O; reflexivity.
+      * destruct (rs_frame (rs0 W0) f); inversion O; reflexivity.
+    + destruct (lookup k (streams s)).
+      * destruct (rs_read MAXW r n t (broken s)) as [[r' y] wu]. inversion O; subst. cbn [dof]. destruct y; try reflexivity. rewrite Hn. reflexivity.
+      * inversion O; reflexivity.
+    + destruct (lookup k (streams s)); inversion O; reflexivity.
+  - unfold ors_step in O. destruct op as [f|k n t|k]; cbn [op_sid] in *.
+    + destruct (broken s); [inversion O; reflexivity|].
+      destruct (lookup (f_sid f) (streams s)); destruct (f_syn f); try (inversion O; reflexivity).
+      * destruct (rs_frame r f); inversion O; reflexivity.
+      * destruct (rs_frame (rs0 W0) f); inversion O; reflexivity.
+    + destruct (lookup k (streams s)).
+      * destruct (rs_read MAXW r n t (broken s)) as [[r' y] wu]. inversion O; subst. cbn [gof]. destruct wu; try reflexivity. rewrite Hn. reflexivity.
+      * inversion O; reflexivity.
+    + destruct (lookup k (streams s)); inversion O; reflexivity.
+  - destruct op; cbn [ffor op_sid] in *; try reflexivity. rewrite Hn. reflexivity.
+  - intros B. rewrite B. reflexivity.
+Qed.
+
+(* ---- one stream: invariant tying the buffer to what arrived and what was read ---- *)
+(* F = frames of this stream handed to the session so far, D = bytes its Reads
+   returned so far, brk = the session is dead *)
+Definition sinv (r : rstream) (brk : bool) (F : list frame) (D : list byte) : Prop :=
+  (head_syn F = true -> exists rest, D ++ concat (r_buf r) ++ rest = payload F /\
+       (rest <> [] -> r_live r = false \/ brk = true) /\
+       (late false F = false -> brk = false -> rest = [])) /\
+  (r_rd r <> HOpen -> seen F = true) /\
+  (r_live r = false -> seen F = true) /\
+  (r_rd r = HClosed -> existsb f_fin F = true).
+
+Lemma flags_step_facts : forall r fin rst,
+  let r1 := flags_step r fin rst in
+  r_buf r1 = r_buf r /\ r_cap r1 = r_cap r /\ r_win r1 = r_win r /\
+  (r_rd r1 <> HOpen -> r_rd r <> HOpen \/ fin || rst = true) /\
+  (r_live r1 = false -> r_live r = false \/ fin || rst = true) /\
+  (r_rd r1 = HClosed -> r_rd r = HClosed \/ fin = true) /\
+  (r_rd r = HReset -> r_rd r1 = HReset).
+Proof.
+  intros [buf cap win rd wr live] fin rst.
+  destruct fin, rst, rd, wr, live; cbn; repeat split; auto; intros; try congruence; try (left; congruence).
+Qed.
+
+Lemma sinv_ignored : forall r b F D f, sinv r b F D -> sinv r true (F ++ [f]) D.
+Proof.
+  intros r b F D f (I1 & I2 & I3 & I4). unfold sinv.
+  split; [|split; [|split]].
+  - intros H. apply head_syn_snoc in H. destruct H as [H _]. destruct (I1 H) as (rest & E & _).
+    exists (rest ++ payload [f]). rewrite payload_app, <- E, <- !app_assoc.
+    split; [reflexivity|]. split; [right; reflexivity|discriminate].
+  - intros H. rewrite seen_snoc, (I2 H). reflexivity.
+  - intros H. rewrite seen_snoc, (I3 H). reflexivity.
+  - intros H. rewrite existsb_snoc, (I4 H). reflexivity.
+Qed.
+
+Lemma sinv_brk : forall r b F D, sinv r b F D -> sinv r true F D.
+Proof.
+  intros r b F D (I1 & I2 & I3 & I4). unfold sinv. repeat split; auto.
+  intros H. destruct (I1 H) as (rest & E & _). exists rest. split; [exact E|]. split; [right; reflexivity|discriminate].
+Qed.
+
+Lemma sinv_frame : forall r F D f r' e,
+  sinv r false F D -> rs_frame r f = (r', e) -> sinv r' e (F ++ [f]) D.
+Proof.
+  intros r F D f r' e (I1 & I2 & I3 & I4) H. unfold rs_frame in H.
+  destruct (r_live r) eqn:L; cbn [negb] in H.
+  2:{ inversion H; subst; clear H. unfold sinv. split; [|split; [|split]].
+      - intros Hs. apply head_syn_snoc in Hs. destruct Hs as [Hs _]. destruct (I1 Hs) as (rest & E & E2 & E3).
+        exists (rest ++ payload [f]). rewrite payload_app, <- E, <- !app_assoc.
+        split; [reflexivity|]. split; [left; exact L|].
+        intros HL _. rewrite late_snoc in HL. apply orb_false_iff in HL. destruct HL as [HL1 HL2].
+        rewrite (I3 eq_refl) in HL2. cbn in HL2. rewrite (payload_empty _ HL2), app_nil_r. apply E3; auto.
+      - intros H. rewrite seen_snoc, (I2 H). reflexivity.
+      - intros H. rewrite seen_snoc, (I3 eq_refl). reflexivity.
+      - intros H. rewrite existsb_snoc, (I4 H). reflexivity. }
+  destruct (flags_step_facts r (f_fin f) (f_rst f)) as (B & C & W & R1 & L1 & K1 & _).
+  set (r1 := flags_step r (f_fin f) (f_rst f)) in *.
+  (* the part that does not depend on the buffer *)
+  assert (Q : forall rr, r_rd rr = r_rd r1 -> r_live rr = r_live r1 ->
+     (r_rd rr <> HOpen -> seen (F ++ [f]) = true) /\ (r_live rr = false -> seen (F ++ [f]) = true) /\
+     (r_rd rr = HClosed -> existsb f_fin (F ++ [f]) = true)).
+  { intros rr E1 E2. rewrite E1, E2, seen_snoc, existsb_snoc. unfold finrst. split; [|split].
+    - intros X. destruct (R1 X) as [Y|Y]; [rewrite (I2 Y); reflexivity|rewrite Y; apply orb_true_r].
+    - intros X. destruct (L1 X) as [Y|Y]; [congruence|rewrite Y; apply orb_true_r].
+    - intros X. destruct (K1 X) as [Y|Y]; [rewrite (I4 Y); reflexivity|rewrite Y; apply orb_true_r]. }
+  (* nothing is outstanding while the stream is live in a live session *)
+  assert (R0 : head_syn (F ++ [f]) = true -> D ++ concat (r_buf r) = payload F).
+  { intros Hs. apply head_syn_snoc in Hs. destruct Hs as [Hs _]. destruct (I1 Hs) as (rest & E & E2 & _).
+    destruct rest as [|x rest]; [rewrite app_nil_r in E; exact E|].
+    destruct (E2 ltac:(discriminate)) as [X|X]; discriminate. }
+  assert (NoPay : forall rr, r_buf rr = r_buf r -> payload [f] = [] ->
+     head_syn (F ++ [f]) = true -> exists rest, D ++ concat (r_buf rr) ++ rest = payload (F ++ [f]) /\
+       (rest <> [] -> r_live rr = false \/ false = true) /\ (late false (F ++ [f]) = false -> false = false -> rest = [])).
+  { intros rr Eb Ep Hs. exists []. rewrite Eb, payload_app, Ep, !app_nil_r. split; [apply R0; exact Hs|].
+    split; [congruence|reflexivity]. }
+  destruct (f_ty f) eqn:T.
+  - destruct (length (f_pay f)) as [|l] eqn:Len.
+    + inversion H; subst; clear H. destruct (Q r1 eq_refl eq_refl) as (Q1 & Q2 & Q3).
+      split; [|split; [|split]]; auto. apply NoPay; [exact B|].
+      rewrite payload_one. destruct (f_pay f); [destruct (is_data f); reflexivity|discriminate].
+    + destruct (r_cap r1 <? S l) eqn:Ov.
+      * inversion H; subst; clear H. destruct (Q r1 eq_refl eq_refl) as (Q1 & Q2 & Q3).
+        split; [|split; [|split]]; auto.
+        intros Hs. exists (payload [f]). rewrite B, payload_app, app_assoc, (R0 Hs).
+        split; [reflexivity|]. split; [right; reflexivity|discriminate].
+      * inversion H; subst; clear H.
+        match goal with |- sinv ?rr _ _ _ => destruct (Q rr eq_refl eq_refl) as (Q1 & Q2 & Q3) end.
+        split; [|split; [|split]]; auto.
+        intros Hs. exists []. cbn [r_buf]. rewrite B, concat_app, payload_app, payload_one.
+        unfold is_data. rewrite T. cbn [concat]. rewrite !app_nil_r, app_assoc, (R0 Hs).
+        split; [reflexivity|]. split; [congruence|reflexivity].
+  - inversion H; subst; clear H. destruct (Q r1 eq_refl eq_refl) as (Q1 & Q2 & Q3).
+    split; [|split; [|split]]; auto. apply NoPay; [exact B|].
+    rewrite payload_one. unfold is_data. rewrite T. reflexivity.
+Qed.
+
+Definition xbytes (x : rres) : list byte := match x with RData bs => bs | _ => [] end.
+Definition wuval (wu : option nat) : nat := match wu with Some d => d | None => 0 end.
+
+(* window accounting of one stream: G = credit granted so far (window updates sent) *)
+Definition winv (W0 MAXW : nat) (r : rstream) (D : list byte) (G : nat) : Prop :=
+  r_cap r + buffered r <= r_win r /\ W0 <= r_win r /\ r_win r <= Nat.max W0 MAXW /\
+  W0 + G <= r_cap r + length D + buffered r.
+
+Lemma grow_facts : forall MAXW r t r2 wu,
+  grow MAXW r t = (r2, wu) ->
+  r_buf r2 = r_buf r /\ r_rd r2 = r_rd r /\ r_wr r2 = r_wr r /\ r_live r2 = r_live r /\
+  r_win r <= r_win r2 /\ r_win r2 <= Nat.max (r_win r) MAXW /\
+  r_cap r + wuval wu <= r_cap r2 /\
+  (r_cap r + buffered r <= r_win r -> r_cap r2 + buffered r2 <= r_win r2) /\
+  (wu <> None -> r_cap r2 + buffered r2 = r_win r2 /\ r_win r2 / 2 <= wuval wu \/ r_win r < r_win r2).
+Proof.
+  intros MAXW r t r2 wu H. unfold grow in H.
+  destruct (r_win r <=? r_cap r + buffered r) eqn:E1.
+  { inversion H; subst. cbn [wuval]. repeat split; auto; try lia; try (intros X; congruence). }
+  apply Nat.leb_gt in E1.
+  destruct (r_win r - (r_cap r + buffered r) <? r_win r / 2) eqn:E2.
+  { inversion H; subst. cbn [wuval]. repeat split; auto; try lia; try (intros X; congruence). }
+  apply Nat.ltb_ge in E2.
+  destruct (t && (r_win r <? Nat.min (2 * r_win r) MAXW)) eqn:E3.
+  - apply andb_prop in E3. destruct E3 as [_ E3]. apply Nat.ltb_lt in E3.
+    inversion H; subst; clear H. unfold buffered. cbn [r_buf r_rd r_wr r_live r_win r_cap wuval].
+    fold (buffered r). repeat split; auto; try lia.
+  - inversion H; subst; clear H. unfold buffered. cbn [r_buf r_rd r_wr r_live r_win r_cap wuval].
+    fold (buffered r). repeat split; auto; try lia.
+Qed.
+
+Lemma firstn_min_length : forall (l : list byte) n, length (firstn (Nat.min n (length l)) l) = Nat.min n (length l).
+Proof. intros. apply firstn_length_le. lia. Qed.
+
+Lemma sinv_ext : forall r1 r2 b F D,
+  r_buf r2 = r_buf r1 -> r_rd r2 = r_rd r1 -> r_live r2 = r_live r1 -> sinv r1 b F D -> sinv r2 b F D.
+Proof. intros r1 r2 b F D E1 E2 E3. unfold sinv. rewrite E1, E2, E3. auto. Qed.
+
+Lemma rs_read_spec : forall W0 MAXW r n t b F D G r' x wu,
+  rs_read MAXW r n t b = (r', x, wu) ->
+  sinv r b F D -> winv W0 MAXW r D G ->
+  sinv r' b F (D ++ xbytes x) /\ winv W0 MAXW r' (D ++ xbytes x) (G + wuval wu) /\
+  r_rd r' = r_rd r /\ r_wr r' = r_wr r /\ r_live r' = r_live r /\
+  (x = REOF -> r_rd r = HClosed /\ r_buf r = []) /\
+  (r_rd r = HReset -> x = RErr) /\
+  (forall bs, x = RData bs -> r_rd r <> HReset /\ exists seg rest, r_buf r = seg :: rest /\ bs = firstn (Nat.min n (length seg)) seg).
+Proof.
+  intros W0 MAXW r n t b F D G r' x wu H I Wv. unfold rs_read in H.
+  set (st := if b && is_open (r_rd r) then HReset else r_rd r) in *.
+  assert (St : (r_rd r = HReset -> st = HReset) /\ (st = HClosed -> r_rd r = HClosed) /\ (st <> HReset -> r_rd r <> HReset)).
+  { unfold st. destruct b, (r_rd r); cbn; repeat split; intros; congruence. }
+  destruct St as (St1 & St2 & St3).
+  assert (Same : forall y, xbytes y = [] -> (r', x, wu) = (r, y, None) ->
+     sinv r' b F (D ++ xbytes x) /\ winv W0 MAXW r' (D ++ xbytes x) (G + wuval wu) /\
+     r_rd r' = r_rd r /\ r_wr r' = r_wr r /\ r_live r' = r_live r).
+  { intros y Ey E. inversion E; subst. rewrite Ey. cbn [wuval]. rewrite app_nil_r, Nat.add_0_r. auto. }
+  destruct (r_buf r) as [|seg rest] eqn:Bf.
+  - (* nothing buffered *)
+    assert (E : exists y, (r', x, wu) = (r, y, None) /\ xbytes y = [] /\ (y = REOF -> st = HClosed) /\ (st = HReset -> y = RErr) /\ (forall bs, y <> RData bs)).
+    { destruct st; inversion H; subst; eexists; (split; [reflexivity|]); cbn; repeat split; intros; congruence. }
+    destruct E as (y & E & Ey & E1 & E2 & E3). destruct (Same y Ey E) as (A1 & A2 & A3 & A4 & A5).
+    inversion E; subst.
+    split; [exact A1|]. split; [exact A2|]. split; [exact A3|]. split; [exact A4|]. split; [exact A5|].
+    split; [intros X; split; [apply St2, E1, X|reflexivity]|].
+    split; [intros X; apply E2, St1, X|]. intros bs X. destruct (E3 bs X).
+  - destruct (match st with HReset => true | _ => false end) eqn:Rs.
+    + (* reset: error *)
+      assert (E : (r', x, wu) = (r, RErr, None)) by (destruct st; try discriminate; inversion H; reflexivity).
+      destruct (Same RErr eq_refl E) as (A1 & A2 & A3 & A4 & A5). inversion E; subst.
+      split; [exact A1|]. split; [exact A2|]. split; [exact A3|]. split; [exact A4|]. split; [exact A5|].
+      split; [discriminate|]. split; [reflexivity|]. intros bs X; discriminate.
+    + set (k := Nat.min n (length seg)) in *.
+      set (r1 := mkR (if k =? length seg then rest else skipn k seg :: rest) (r_cap r) (r_win r) (r_rd r) (r_wr r) (r_live r)) in *.
+      assert (H' : (let '(r2, wu0) := if b then (r1, None) else grow MAXW r1 t in (r2, RData (firstn k seg), wu0)) = (r', x, wu))
+        by (destruct st; try discriminate; exact H).
+      clear H.
+      assert (Hk : length (firstn k seg) = k) by (apply firstn_min_length).
+      assert (Cc : firstn k seg ++ concat (r_buf r1) = concat (r_buf r)).
+      { rewrite Bf. cbn [r1 r_buf concat]. destruct (k =? length seg) eqn:Ek.
+        - apply Nat.eqb_eq in Ek. rewrite Ek, firstn_all. reflexivity.
+        - cbn [concat]. rewrite app_assoc, firstn_skipn. reflexivity. }
+      assert (Bl : buffered r1 + k = buffered r).
+      { unfold buffered. rewrite <- Cc, app_length, Hk. lia. }
+      assert (I1 : sinv r1 b F (D ++ firstn k seg)).
+      { destruct I as (J1 & J2 & J3 & J4). unfold sinv. cbn [r1 r_rd r_live]. repeat split; auto.
+        intros Hs. destruct (J1 Hs) as (rs & E & E2 & E3). exists rs. split; [|auto].
+        rewrite <- E, <- Cc, <- !app_assoc. reflexivity. }
+      assert (W1 : winv W0 MAXW r1 (D ++ firstn k seg) G).
+      { destruct Wv as (V1 & V2 & V3 & V4). unfold winv. rewrite app_length, Hk. cbn [r1 r_cap r_win]. repeat split; lia. }
+      assert (NR : r_rd r <> HReset) by (apply St3; destruct st; congruence).
+      destruct b.
+      * inversion H'; subst. cbn [xbytes wuval]. rewrite Nat.add_0_r.
+        split; [exact I1|]. split; [exact W1|]. split; [reflexivity|]. split; [reflexivity|]. split; [reflexivity|].
+        split; [discriminate|]. split; [intros X; congruence|]. intros bs X. inversion X; subst. split; [exact NR|eauto].
+      * destruct (grow MAXW r1 t) as [r2 wu0] eqn:Gr. inversion H'; subst. cbn [xbytes].
+        destruct (grow_facts _ _ _ _ _ Gr) as (G1 & G2 & G3 & G4 & G5 & G6 & G7 & G8 & _).
+        split; [eapply sinv_ext; eauto|]. split.
+        { destruct W1 as (V1 & V2 & V3 & V4). unfold winv.
+          assert (buffered r' = buffered r1) by (unfold buffered; rewrite G1; reflexivity).
+          specialize (G8 V1). repeat split; lia. }
+        split; [exact G2|]. split; [exact G3|]. split; [exact G4|].
+        split; [discriminate|]. split; [intros X; congruence|]. intros bs X. inversion X; subst. split; [exact NR|eauto].
+Qed.
+
+Lemma sinv_closew : forall r b F D, sinv r b F D -> sinv (rs_closew r) b F D.
+Proof.
+  intros r b F D (I1 & I2 & I3 & I4). unfold rs_closew. destruct (is_open (r_wr r)); [|repeat split; auto].
+  unfold sinv. cbn [r_buf r_rd r_live]. repeat split; auto.
+  - intros Hs. destruct (I1 Hs) as (rs & E & E2 & E3). exists rs. repeat split; auto.
+    intros X. destruct (E2 X) as [Y|Y]; [left; rewrite Y; reflexivity|right; exact Y].
+  - intros X. apply andb_false_iff in X. destruct X as [X|X]; [auto|].
+    apply I2. destruct (r_rd r); cbn in X; congruence.
+Qed.
+
+Lemma winv_closew : forall W0 MAXW r D G, winv W0 MAXW r D G -> winv W0 MAXW (rs_closew r) D G.
+Proof. intros W0 MAXW r D G H. unfold rs_closew. destruct (is_open (r_wr r)); exact H. Qed.
+
+Lemma winv_frame : forall W0 MAXW r f r' e D G,
+  rs_frame r f = (r', e) -> winv W0 MAXW r D G -> winv W0 MAXW r' D G.
+Proof.
+  intros W0 MAXW r f r' e D G H Wv. unfold rs_frame in H.
+  destruct (negb (r_live r)); [inversion H; subst; exact Wv|].
+  destruct (flags_step_facts r (f_fin f) (f_rst f)) as (B & C & W & _).
+  set (r1 := flags_step r (f_fin f) (f_rst f)) in *.
+  assert (W1 : winv W0 MAXW r1 D G).
+  { unfold winv, buffered in *. rewrite B, C, W. exact Wv. }
+  destruct (f_ty f); [|inversion H; subst; exact W1].
+  destruct (length (f_pay f)) as [|l] eqn:Len; [inversion H; subst; exact W1|].
+  destruct (r_cap r1 <? S l) eqn:Ov; [inversion H; subst; exact W1|].
+  apply Nat.ltb_ge in Ov. inversion H; subst; clear H.
+  destruct W1 as (V1 & V2 & V3 & V4). unfold winv, buffered in *. cbn [r_buf r_cap r_win].
+  rewrite concat_app, app_length. cbn [concat]. rewrite app_nil_r, Len. repeat split; lia.
+Qed.
+
+(* ---- the session: invariant for one stream id, over every run ---------------------- *)
+Definition inv (W0 MAXW sid : nat) (s : ses) (F : list frame) (D : list byte) (G : nat) : Prop :=
+  match lookup sid (streams s) with
+  | None => D = [] /\ G = 0 /\ (head_syn F = true -> broken s = false -> F = [])
+  | Some r => sinv r (broken s) F D /\ winv W0 MAXW r D G
+  end.
+
+Lemma dof_same : forall sid x wu, dof sid (ORead sid x wu) = xbytes x.
+Proof. intros. destruct x; cbn [dof xbytes]; try reflexivity. rewrite Nat.eqb_refl. reflexivity. Qed.
+
+Lemma gof_same : forall sid x wu, gof sid (ORead sid x wu) = wuval wu.
+Proof. intros. destruct wu; cbn [gof wuval]; try reflexivity. rewrite Nat.eqb_refl. reflexivity. Qed.
+
+Lemma sinv_rs0 : forall W0 F, (head_syn F = true -> F = []) -> sinv (rs0 W0) false F [].
+Proof.
+  intros W0 F H. unfold sinv, rs0; cbn [r_buf r_rd r_live concat]. repeat split; try congruence.
+  intros Hs. rewrite (H Hs). exists []. repeat split; auto.
+Qed.
+
+Lemma winv_rs0 : forall W0 MAXW, winv W0 MAXW (rs0 W0) [] 0.
+Proof. intros. unfold winv, rs0, buffered; cbn. repeat split; lia. Qed.
+
+Lemma inv_step : forall W0 MAXW sid s F D G op s' o,
+  inv W0 MAXW sid s F D G -> ses_step W0 MAXW s op = (s', o) ->
+  inv W0 MAXW sid s' (F ++ ffor sid op) (D ++ dof sid o) (G + gof sid o).
+Proof.
+  intros W0 MAXW sid s F D G op s' o I H.
+  destruct (Nat.eq_dec (op_sid op) sid) as [Es|Es].
+  2:{ destruct (ses_step_other _ _ _ _ _ _ _ Es H) as (L & Dz & Gz & Fz & Bm).
+      rewrite Dz, Gz, Fz, !app_nil_r, Nat.add_0_r. unfold inv in *. rewrite L.
+      destruct (lookup sid (streams s)) as [r|].
+      - destruct I as [I1 I2]. split; [|exact I2].
+        destruct (broken s') eqn:B'; [eapply sinv_brk; exact I1|].
+        destruct (broken s) eqn:B; [specialize (Bm eq_refl); discriminate|exact I1].
+      - destruct I as (I1 & I2 & I3). repeat split; auto. intros Hs B'. apply I3; [exact Hs|].
+        destruct (broken s); [specialize (Bm eq_refl); congruence|reflexivity]. }
+  unfold ses_step in H. rewrite Es in H. unfold inv in I.
+  destruct op as [f|k n t|k]; cbn [op_sid] in Es; subst sid; cbn [op_sid ors_step] in H.
+  - (* a frame of this stream *)
+    cbn [ffor dof gof]. rewrite Nat.eqb_refl.
+    destruct (broken s) eqn:B.
+    + inversion H; subst; clear H. cbn [dof gof]. rewrite app_nil_r, Nat.add_0_r. unfold inv. cbn [streams broken orb].
+      destruct (lookup (f_sid f) (streams s)) as [r|] eqn:L.
+      * rewrite lookup_update_same. destruct I as [I1 I2]. split; [eapply sinv_ignored; exact I1|exact I2].
+      * rewrite L. destruct I as (I1 & I2 & I3). repeat split; auto. discriminate.
+    + destruct (lookup (f_sid f) (streams s)) as [r|] eqn:L.
+      * destruct (f_syn f) eqn:Sy.
+        -- inversion H; subst; clear H. cbn [dof gof]. rewrite app_nil_r, Nat.add_0_r. unfold inv. cbn [streams broken orb].
+           rewrite lookup_update_same. destruct I as [I1 I2]. split; [eapply sinv_ignored; exact I1|exact I2].
+        -- destruct (rs_frame r f) as [r' e] eqn:Rf. inversion H; subst; clear H. cbn [dof gof].
+           rewrite app_nil_r, Nat.add_0_r. unfold inv. cbn [streams broken orb]. rewrite lookup_update_same.
+           destruct I as [I1 I2]. split; [eapply sinv_frame; eauto|eapply winv_frame; eauto].
+      * destruct I as (I1 & I2 & I3). subst D G. destruct (f_syn f) eqn:Sy.
+        -- destruct (rs_frame (rs0 W0) f) as [r' e] eqn:Rf. inversion H; subst; clear H. cbn [dof gof].
+           cbn [app Nat.add]. unfold inv. cbn [streams broken orb]. rewrite lookup_update_same.
+           split; [eapply sinv_frame; [apply sinv_rs0|exact Rf]|eapply winv_frame; [exact Rf|apply winv_rs0]].
+           intros Hs. apply I3; auto.
+        -- inversion H; subst; clear H. cbn [dof gof app Nat.add]. unfold inv. cbn [streams broken orb]. rewrite L.
+           repeat split; auto. intros Hs _. apply head_syn_snoc in Hs. destruct Hs as [Hs1 Hs2].
+           specialize (I3 Hs1 eq_refl). specialize (Hs2 I3). congruence.
+  - (* a Read on this stream *)
+    cbn [ffor]. rewrite app_nil_r.
+    destruct (lookup k (streams s)) as [r|] eqn:L.
+    + destruct (rs_read MAXW r n t (broken s)) as [[r' x] wu] eqn:Rd. inversion H; subst; clear H.
+      rewrite dof_same, gof_same. unfold inv. cbn [streams broken]. rewrite orb_false_r, lookup_update_same.
+      destruct I as [I1 I2]. destruct (rs_read_spec _ _ _ _ _ _ _ _ _ _ _ _ Rd I1 I2) as (A1 & A2 & _). split; assumption.
+    + inversion H; subst; clear H. cbn [dof gof]. rewrite app_nil_r, Nat.add_0_r. unfold inv. cbn [streams broken].
+      rewrite orb_false_r, L. exact I.
+  - (* local CloseWrite *)
+    cbn [ffor]. rewrite app_nil_r.
+    destruct (lookup k (streams s)) as [r|] eqn:L.
+    + inversion H; subst; clear H. cbn [dof gof]. rewrite app_nil_r, Nat.add_0_r. unfold inv. cbn [streams broken].
+      rewrite orb_false_r, lookup_update_same. destruct I as [I1 I2].
+      split; [apply sinv_closew; exact I1|apply winv_closew; exact I2].
+    + inversion H; subst; clear H. cbn [dof gof]. rewrite app_nil_r, Nat.add_0_r. unfold inv. cbn [streams broken].
+      rewrite orb_false_r, L. exact I.
+Qed.
+
+Lemma inv_run : forall W0 MAXW sid ops done s outs,
+  inv W0 MAXW sid s (frames_for sid (frames_in done)) (delivered sid outs) (granted sid outs) ->
+  let '(s', outs') := ses_run W0 MAXW s outs ops in
+  inv W0 MAXW sid s' (frames_for sid (frames_in (done ++ ops))) (delivered sid outs') (granted sid outs').
+Proof.
+  intros W0 MAXW sid. induction ops as [|op ops IH]; intros done s outs I; cbn [ses_run].
+  - rewrite app_nil_r. exact I.
+  - destruct (ses_step W0 MAXW s op) as [s1 o] eqn:E.
+    specialize (IH (done ++ [op]) s1 (outs ++ [o])).
+    rewrite <- app_assoc in IH. cbn [app] in IH. apply IH.
+    rewrite frames_for_in_snoc, delivered_snoc, granted_snoc. eapply inv_step; eauto.
+Qed.
+
+Lemma inv0 : forall W0 MAXW sid, inv W0 MAXW sid ses0 [] [] 0.
+Proof. intros. unfold inv, ses0; cbn. repeat split; auto. Qed.
+
+Lemma inv_reach : forall W0 MAXW sid ops,
+  let '(s, outs) := ses_run W0 MAXW ses0 [] ops in
+  inv W0 MAXW sid s (frames_for sid (frames_in ops)) (delivered sid outs) (granted sid outs).
+Proof. intros. apply (inv_run W0 MAXW sid ops [] ses0 []). apply inv0. Qed.
+
+(* ---- what every run of the receiving session guarantees, per stream id --------------- *)
+Section Reach.
+Variables W0 MAXW : nat.
+
+(* (a) everything the Reads on [sid] returned is a prefix of the payload of the
+   frames tagged [sid], in their order on the wire: no byte of another stream,
+   nothing twice, nothing skipped *)
+Lemma mux_prefix_l : forall ops sid,
+  let '(s, outs) := ses_run W0 MAXW ses0 [] ops in
+  head_syn (frames_for sid (frames_in ops)) = true ->
+  exists rest, delivered sid outs ++ rest = payload (frames_for sid (frames_in ops)).
+Proof.
+  intros ops sid. pose proof (inv_reach W0 MAXW sid ops) as I.
+  destruct (ses_run W0 MAXW ses0 [] ops) as [s outs]. intros Hs. unfold inv in I.
+  destruct (lookup sid (streams s)) as [r|].
+  - destruct I as [(I1 & _) _]. destruct (I1 Hs) as (rest & E & _). exists (concat (r_buf r) ++ rest). exact E.
+  - destruct I as (I1 & _). rewrite I1. eexists. reflexivity.
+Qed.
+
+(* ... and exactly that payload minus what is still buffered, when the peer
+   sends no data after its FIN/RST and the session is alive *)
+Lemma mux_exact_l : forall ops sid,
+  let '(s, outs) := ses_run W0 MAXW ses0 [] ops in
+  head_syn (frames_for sid (frames_in ops)) = true ->
+  late false (frames_for sid (frames_in ops)) = false ->
+  broken s = false ->
+  forall r, lookup sid (streams s) = Some r ->
+  delivered sid outs ++ concat (r_buf r) = payload (frames_for sid (frames_in ops)).
+Proof.
+  intros ops sid. pose proof (inv_reach W0 MAXW sid ops) as I.
+  destruct (ses_run W0 MAXW ses0 [] ops) as [s outs]. intros Hs Hl Hb r L. unfold inv in I. rewrite L in I.
+  destruct I as [(I1 & _) _]. destruct (I1 Hs) as (rest & E & _ & E3). rewrite (E3 Hl Hb), app_nil_r in E. exact E.
+Qed.
+
+(* (e) receiver half of flow control *)
+Lemma mux_window_l : forall ops sid,
+  let '(s, outs) := ses_run W0 MAXW ses0 [] ops in
+  forall r, lookup sid (streams s) = Some r ->
+  buffered r <= r_win r /\ r_win r <= Nat.max W0 MAXW /\
+  W0 + granted sid outs <= r_cap r + length (delivered sid outs) + buffered r.
+Proof.
+  intros ops sid. pose proof (inv_reach W0 MAXW sid ops) as I.
+  destruct (ses_run W0 MAXW ses0 [] ops) as [s outs]. intros r L. unfold inv in I. rewrite L in I.
+  destruct I as [_ (V1 & V2 & V3 & V4)]. repeat split; lia.
+Qed.
+
+(* (b) the Read that follows any history: EOF only after a FIN, and only when
+   everything that arrived has been handed out *)
+Lemma mux_eof_l : forall ops sid n t,
+  let '(s, outs) := ses_run W0 MAXW ses0 [] ops in
+  forall s' wu, ses_step W0 MAXW s (RRead sid n t) = (s', ORead sid REOF wu) ->
+  existsb f_fin (frames_for sid (frames_in ops)) = true /\
+  (head_syn (frames_for sid (frames_in ops)) = true ->
+   late false (frames_for sid (frames_in ops)) = false -> broken s = false ->
+   delivered sid outs = payload (frames_for sid (frames_in ops))).
+Proof.
+  intros ops sid n t. pose proof (inv_reach W0 MAXW sid ops) as I.
+  destruct (ses_run W0 MAXW ses0 [] ops) as [s outs]. intros s' wu H.
+  unfold ses_step in H. cbn [op_sid ors_step] in H. unfold inv in I.
+  destruct (lookup sid (streams s)) as [r|] eqn:L; [|inversion H].
+  destruct (rs_read MAXW r n t (broken s)) as [[r' x] wu'] eqn:Rd. inversion H; subst; clear H.
+  destruct I as [I1 I2]. destruct (rs_read_spec _ _ _ _ _ _ _ _ _ _ _ _ Rd I1 I2) as (_ & _ & _ & _ & _ & Eo & _).
+  destruct (Eo eq_refl) as [Ec Eb]. destruct I1 as (J1 & _ & _ & J4). split; [apply J4; exact Ec|].
+  intros Hs Hl Hb. destruct (J1 Hs) as (rest & E & _ & E3). rewrite (E3 Hl Hb), Eb in E. cbn [concat] in E.
+  rewrite !app_nil_r in E. exact E.
+Qed.
+
+(* (d) once the read side is reset it stays reset: every later Read on the
+   stream fails and hands out nothing *)
+Definition read_fails (sid : nat) (o : rout) : Prop :=
+  match o with ORead k x _ => k = sid -> x = RErr | ONone => True end.
+
+Lemma reset_step : forall sid s r op s' o,
+  lookup sid (streams s) = Some r -> r_rd r = HReset ->
+  ses_step W0 MAXW s op = (s', o) ->
+  (exists r', lookup sid (streams s') = Some r' /\ r_rd r' = HReset) /\ read_fails sid o.
+Proof.
+  intros sid s r op s' o L R H.
+  destruct (Nat.eq_dec (op_sid op) sid) as [Es|Es].
+  2:{ destruct (ses_step_other _ _ _ _ _ _ _ Es H) as (L' & _). split; [exists r; rewrite L'; auto|].
+      unfold ses_step in H. destruct (ors_step W0 MAXW (lookup (op_sid op) (streams s)) op (broken s)) as [[x out] e] eqn:O.
+      inversion H; subst. unfold ors_step in O. destruct op as [f|k n t|k]; cbn [op_sid] in *.
+      - destruct (broken s); [inversion O; exact I|].
+        destruct (lookup (f_sid f) (streams s)); destruct (f_syn f); try (inversion O; exact I).
+        + destruct (rs_frame r0 f); inversion O; exact I.
+        + destruct (rs_frame (rs0 W0) f); inversion O; exact I.
+      - destruct (lookup k (streams s)).
+        + destruct (rs_read MAXW r0 n t (broken s)) as [[r' y] wu]. inversion O; subst. cbn. intros; congruence.
+        + inversion O; subst. cbn. intros; congruence.
+      - destruct (lookup k (streams s)); inversion O; exact I. }
+  unfold ses_step in H. rewrite Es, L in H.
+  destruct op as [f|k n t|k]; cbn [op_sid] in Es; subst sid; cbn [ors_step] in H.
+  - destruct (broken s); [inversion H; subst; cbn [streams]; rewrite lookup_update_same; split; [eauto|exact I]|].
+    destruct (f_syn f); [inversion H; subst; cbn [streams]; rewrite lookup_update_same; split; [eauto|exact I]|].
+    destruct (rs_frame r f) as [r' e] eqn:Rf. inversion H; subst; clear H. cbn [streams]. rewrite lookup_update_same.
+    split; [|exact I]. exists r'. split; [reflexivity|].
+    unfold rs_frame in Rf. destruct (negb (r_live r)); [inversion Rf; subst; exact R|].
+    destruct (flags_step_facts r (f_fin f) (f_rst f)) as (_ & _ & _ & _ & _ & _ & K). specialize (K R).
+    destruct (f_ty f); [|inversion Rf; subst; exact K].
+    destruct (length (f_pay f)); [inversion Rf; subst; exact K|].
+    destruct (r_cap (flags_step r (f_fin f) (f_rst f)) <? S n); inversion Rf; subst; exact K.
+  - destruct (rs_read MAXW r n t (broken s)) as [[r' x] wu] eqn:Rd. inversion H; subst; clear H.
+    cbn [streams]. rewrite lookup_update_same.
+    assert (X : x = RErr /\ r_rd r' = HReset).
+    { unfold rs_read in Rd. rewrite R in Rd. destruct (broken s); cbn in Rd; inversion Rd; subst; auto. }
+    destruct X as [X1 X2]. split; [eauto|]. cbn. intros _. exact X1.
+  - inversion H; subst; clear H. cbn [streams]. rewrite lookup_update_same. split; [|exact I].
+    exists (rs_closew r). split; [reflexivity|]. unfold rs_closew. destruct (is_open (r_wr r)); exact R.
+Qed.
+
+Lemma mux_reset_l : forall sid ops s outs r,
+  lookup sid (streams s) = Some r -> r_rd r = HReset ->
+  let '(s', outs') := ses_run W0 MAXW s outs ops in
+  exists new, outs' = outs ++ new /\ Forall (read_fails sid) new /\ delivered sid outs' = delivered sid outs.
+Proof.
+  intros sid. induction ops as [|op ops IH]; intros s outs r L R; cbn [ses_run].
+  - exists []. rewrite app_nil_r. auto.
+  - destruct (ses_step W0 MAXW s op) as [s1 o] eqn:E.
+    destruct (reset_step _ _ _ _ _ _ L R E) as ((r' & L' & R') & Fo).
+    specialize (IH s1 (outs ++ [o]) r' L' R').
+    destruct (ses_run W0 MAXW s1 (outs ++ [o]) ops) as [s' outs']. destruct IH as (new & E1 & E2 & E3).
+    exists (o :: new). split; [rewrite E1, <- app_assoc; reflexivity|]. split; [constructor; assumption|].
+    rewrite E3, delivered_snoc.
+    assert (dof sid o = []) as ->; [|apply app_nil_r].
+    destruct o as [|k x wu]; [reflexivity|]. cbn [dof]. destruct x; try reflexivity.
+    destruct (k =? sid) eqn:Ek; [|reflexivity]. apply Nat.eqb_eq in Ek. specialize (Fo Ek). discriminate.
+Qed.
+
+(* an RST (without FIN) reaching a stream whose read side is open resets it *)
+Lemma rst_resets_l : forall s r f s' o,
+  broken s = false -> lookup (f_sid f) (streams s) = Some r -> r_live r = true -> r_rd r = HOpen ->
+  f_syn f = false -> f_fin f = false -> f_rst f = true -> is_data f = false ->
+  ses_step W0 MAXW s (RDeliver f) = (s', o) ->
+  exists r', lookup (f_sid f) (streams s') = Some r' /\ r_rd r' = HReset.
+Proof.
+  intros s r f s' o B L Lv R Sy Fi Rs Da H. unfold ses_step in H. cbn [op_sid ors_step] in H.
+  rewrite B, L, Sy in H. unfold rs_frame in H. rewrite Lv in H. cbn [negb] in H.
+  unfold is_data in Da. destruct (f_ty f); [discriminate|].
+  inversion H; subst; clear H. cbn [streams]. rewrite lookup_update_same. eexists. split; [reflexivity|].
+  unfold flags_step. rewrite Fi, Rs, R. cbn. rewrite R. reflexivity.
+Qed.
+End Reach.
